@@ -74,6 +74,8 @@ def make_obj(lib, ci, seg, dim):
     a["Get_dN_e_pg"] = lambda mt=None: XFe((1, 1, 1, nPe), [p / scale for p in dN])
     a["Get_invF_e_pg"] = lambda mt=None: XFe((1, 1, 1, 1), [Poly.const(1 / scale)])
     a["length_e"] = XArray((1,), [L])
+    # (the stub element runs towards +x: the direction factor of 1-D structures is +1; both directions are decided by R10.16)
+    a["_Get_x_direction_e_pg"] = lambda: XArray((1, 1, 1), [Q(1)])
     for nm in ("_Hermitian_N", "_Hermitian_dN", "_Hermitian_ddN", "_Hermitian_dddN"):
         getter = "Get" + nm + "_pg"
         tab = _hermite_table(lib, ci, ed, nm)
